@@ -5,7 +5,7 @@ from fractions import Fraction
 
 import z3
 
-from .poly import Poly, REG, P0, P1
+from .poly import Poly, REG, P0, P1, _rv
 from .values import SR, SB, SI, SC, Abort, Concretize, CUR, sb
 
 RLIMIT = 30_000_000
@@ -40,6 +40,8 @@ class Explorer:
         self.realisations = 0
         self.maybe_infeasible = False
         self.declared = {}         # symbol name -> ('R'|'I', SR|SI)
+        self.bounds = {}           # var id -> (lo, hi) Fractions, from declared boxes
+        self.abstract_ok = 0
 
     # ------------------------------------------------------------------ solver plumbing
     def _check(self, extra):
@@ -273,6 +275,8 @@ class Explorer:
     def real(self, name, lo=None, hi=None):
         s = SR.sym(name)
         self.declared[name] = ('R', s)
+        if lo is not None and hi is not None:
+            self.bounds[REG.byname[name]] = (Fraction(lo), Fraction(hi))
         if lo is not None:
             self.assume(s >= lo)
         if hi is not None:
@@ -292,6 +296,67 @@ class Explorer:
         b = SB(z3.Bool(name))
         self.declared[name] = ('B', b)
         return b
+
+    # ------------------------------------------------------------------ margin obligations
+    def mono_hull(self, m):
+        """interval hull of a monomial over the declared boxes, or None if a factor is unbounded"""
+        lo = hi = Fraction(1)
+        for v, e in m:
+            b = self.bounds.get(v)
+            if b is None:
+                return None
+            cand = [b[0] ** e, b[1] ** e]
+            if e % 2 == 0 and b[0] < 0 < b[1]:
+                cand.append(Fraction(0))
+            vlo, vhi = min(cand), max(cand)
+            prods = [lo * vlo, lo * vhi, hi * vlo, hi * vhi]
+            lo, hi = min(prods), max(prods)
+        return lo, hi
+
+    def abs_bound(self, x):
+        """upper bound of |x| over the declared boxes (interval arithmetic), None if unbounded"""
+        if not x.d.is_const():
+            return None
+        k = abs(1 / x.d.const_value())
+        tot = Fraction(0)
+        for m, c in x.n.t.items():
+            h = self.mono_hull(m)
+            if h is None:
+                return None
+            tot += abs(c) * max(abs(h[0]), abs(h[1]))
+        return tot * k
+
+    def margin_by_abstraction(self, d, tol):
+        """sound sufficient check of |d| <= tol over the declared boxes: every monomial of the
+        (polynomial) d is replaced by a fresh real ranging over its interval hull, which turns the
+        negated obligation into a linear query; unsat => the obligation holds on every path."""
+        if not d.d.is_const():
+            return False
+        k = 1 / d.d.const_value()
+        lin = []
+        cons = []
+        for i, (m, c) in enumerate(d.n.t.items()):
+            if not m:
+                lin.append(_rv(c * k))
+                continue
+            h = self.mono_hull(m)
+            if h is None:
+                return False
+            M = z3.Real(f'mono!{i}')
+            cons += [M >= _rv(h[0]), M <= _rv(h[1])]
+            lin.append(_rv(c * k) * M)
+        tot = z3.Sum(lin) if lin else z3.RealVal(0)
+        s = z3.SolverFor('QF_LRA')
+        s.add(*cons)
+        s.add(z3.Or(tot > _rv(Fraction(tol)), tot < -_rv(Fraction(tol))))
+        self.queries += 1
+        t0 = time.time()
+        r = s.check()
+        self.solver_s += time.time() - t0
+        if r == z3.unsat:
+            self.abstract_ok += 1
+            return True
+        return False
 
     # ------------------------------------------------------------------ model -> inputs
     def inputs_from_model(self, model):
@@ -356,6 +421,7 @@ def explore(fn, rlimit=RLIMIT, max_paths=20000, wall_s=None, on_path=None):
             ex.atoms_n = 0
             ex.maybe_infeasible = False
             ex.declared = {}
+            ex.bounds = {}
             REG.reset_atoms()
             raised = None
             obs = None
@@ -408,6 +474,12 @@ def explore(fn, rlimit=RLIMIT, max_paths=20000, wall_s=None, on_path=None):
                     else:
                         stats['undecided'] += 1
                     continue
+                if meta and meta.get('margin') is not None and not isinstance(p, bool):
+                    d_, tol_ = meta['margin']
+                    if ex.margin_by_abstraction(d_, tol_):
+                        stats['discharged'] += 1
+                        stats['by_abstraction'] = stats.get('by_abstraction', 0) + 1
+                        continue
                 t = z3.simplify(sb(p).t)
                 if z3.is_true(t):
                     stats['discharged'] += 1
